@@ -3,6 +3,9 @@
 # requires a VIOLATION, and restores the tree. Benign patches must stay green.
 # usage: selftest/run.sh [pattern]
 cd "$(dirname "$0")/.."
+# evidence of these runs (deliberately broken trees) goes to a scratch directory, never to /verif/evidence
+export VERIF_EVIDENCE_DIR=$(mktemp -d /tmp/selftest_ev_XXXX)
+trap 'rm -rf "$VERIF_EVIDENCE_DIR"' EXIT
 PAT=${1:-}
 fail=0
 if [ -n "$(git -C /repo status --porcelain)" ]; then echo "/repo working tree is not clean"; exit 2; fi
